@@ -8,7 +8,8 @@
 (*          (printing "", "v", " v ") and an assign, each tag with all 4   *)
 (*          hyphen combinations;                                           *)
 (*   skel   block skeletons (if/else, if false, for, capture, comment,     *)
-(*          raw, case) with every subset of their hyphen positions and     *)
+(*          raw, case, comment/assign next to a hyphenated object) with    *)
+(*          every subset of their hyphen positions and                     *)
 (*          rotating neighbouring texts.                                   *)
 (* Policy selects the intended trim writer or the one of the pinned commit *)
 (* (with which TLC must find the counterexample: self-test).               *)
@@ -45,7 +46,7 @@ ElemNodes(x) == CASE x.e = "text" -> <<T(TX[x.i])>>
 \* -------------------------------------------------------------------- skel
 Bit(b, i) == (b \div (2^(i - 1))) % 2 = 1
 Tx(x, i) == T(TX[((x.tx + i) % Len(TX)) + 1])
-NBits(k) == CASE k = 1 -> 8 [] k = 2 -> 6 [] k = 3 -> 6 [] k = 4 -> 2 [] k = 5 -> 2 [] k = 6 -> 4 [] k = 7 -> 6
+NBits(k) == CASE k = 1 -> 8 [] k = 2 -> 6 [] k = 3 -> 6 [] k = 4 -> 2 [] k = 5 -> 2 [] k = 6 -> 4 [] k = 7 -> 6 [] k = 8 -> 6 [] k = 9 -> 6
 SkelNodes(x) ==
   LET b(i) == Bit(x.bits, i) IN
   CASE x.k = 1 ->      \* T {% if true %} T {{ v3 }} T {% else %} T {% endif %} T
@@ -68,9 +69,17 @@ SkelNodes(x) ==
          <<Tx(x, 0)>> \o W(b(1), [t |-> "case", e |-> Lit(IntV(1)), pre |-> <<>>,
               whens |-> <<[vals |-> <<Lit(IntV(1))>>, body |-> In(b(2), <<Tx(x, 1)>> \o W(b(3), Ob(Var(VN(2))), b(4)), b(5))]>>], b(6)) \o <<Tx(x, 2)>>
 
+    [] x.k = 8 ->      \* T {% comment %}c{% endcomment %} T {{ v2 }} T {% comment %}c{% endcomment %} T : a block that leaves
+                       \* nothing behind does not join the texts on its two sides (each hyphen reaches its own neighbour only)
+         <<Tx(x, 0)>> \o W(b(1), [t |-> "comment", s |-> <<99>>], b(2)) \o <<Tx(x, 1)>> \o W(b(3), Ob(Var(VN(2))), b(4))
+         \o <<Tx(x, 2)>> \o W(b(5), [t |-> "comment", s |-> <<99>>], b(6)) \o <<Tx(x, 3)>>
+    [] x.k = 9 ->      \* the same with a tag that renders nothing
+         <<Tx(x, 0)>> \o W(b(1), Assign, b(2)) \o <<Tx(x, 1)>> \o W(b(3), Ob(Var(VN(2))), b(4))
+         \o <<Tx(x, 2)>> \o W(b(5), Assign, b(6)) \o <<Tx(x, 3)>>
+
 Skels == UNION {[g : {"skel"}, k : {k}, tx : 0..(Len(TX) - 1),
                  bits : IF Bits THEN 0..(2^NBits(k) - 1) ELSE {0, 2^NBits(k) - 1} \cup {2^i : i \in 0..(NBits(k) - 1)}
-                                                               \cup {2^NBits(k) - 1 - 2^i : i \in 0..(NBits(k) - 1)}] : k \in 1..7}
+                                                               \cup {2^NBits(k) - 1 - 2^i : i \in 0..(NBits(k) - 1)}] : k \in 1..9}
 Cases == [g : {"flat"}, s : UNION {FlatSeqs(n) : n \in 0..N}] \cup Skels
 
 ProgOf(x) == IF x.g = "flat" THEN Flatten([i \in 1..Len(x.s) |-> ElemNodes(x.s[i])]) ELSE SkelNodes(x)
